@@ -51,7 +51,7 @@ fn builder_append_keyframe(name: &Path, config: &KeyframeConfig) -> Result<Token
     let normalized_time = match &config.position {
         KeyframePositionArgument::From(_) => 0.0,
         KeyframePositionArgument::To(_) => 1.0,
-        KeyframePositionArgument::Percent(lit, _) => lit.as_f32()? * 0.01,
+        KeyframePositionArgument::Percent(lit, _) => (lit.as_f64()? / 100.0) as f32,
     };
     match &config.values {
         KeyframeValues::Default(_) => {
@@ -81,14 +81,14 @@ fn builder_append_keyframe(name: &Path, config: &KeyframeConfig) -> Result<Token
 
 fn builder_create_timeline(name: &Path, config: &TimelineConfig) -> Result<TokenStream2> {
     let duration = match &config.duration {
-        Some(duration) => Some(duration.value.as_f32()? * seconds_multiplier(&duration.value)?),
+        Some(duration) => Some(seconds(&duration.value)?),
         None => None,
     };
     let duration_setter = duration.map(|duration_seconds| {
         quote! { .duration_seconds(#duration_seconds) }
     });
     let delay = match &config.delay {
-        Some(delay) => Some(delay.value.as_f32()? * seconds_multiplier(&delay.value)?),
+        Some(delay) => Some(seconds(&delay.value)?),
         None => None,
     };
     let delay_setter = delay.map(|delay_seconds| {
@@ -125,10 +125,12 @@ fn builder_create_timeline(name: &Path, config: &TimelineConfig) -> Result<Token
     })
 }
 
-fn seconds_multiplier(num_lit: &NumericLit) -> Result<f32> {
+/// Converts a time literal to seconds, rounding to `f32` exactly once: `1500ms` has to be the same
+/// `f32` as `1.5s`, which `1500.0 * 0.001` in `f32` is not (`0.001f32` is not one thousandth).
+fn seconds(num_lit: &NumericLit) -> Result<f32> {
     match num_lit.suffix() {
-        "s" => Ok(1.0),
-        "ms" => Ok(0.001),
+        "s" => num_lit.as_f32(),
+        "ms" => Ok((num_lit.as_f64()? / 1000.0) as f32),
         _ => Err(Error::new(num_lit.span(), "blah")),
     }
 }
@@ -263,6 +265,15 @@ impl NumericLit {
     pub fn as_f32(&self) -> Result<f32> {
         let value = match self {
             NumericLit::Byte(lit_byte) => lit_byte.value() as f32,
+            NumericLit::Int(lit_int) => lit_int.base10_parse()?,
+            NumericLit::Float(lit_float) => lit_float.base10_parse()?,
+        };
+        Ok(value)
+    }
+
+    pub fn as_f64(&self) -> Result<f64> {
+        let value = match self {
+            NumericLit::Byte(lit_byte) => lit_byte.value() as f64,
             NumericLit::Int(lit_int) => lit_int.base10_parse()?,
             NumericLit::Float(lit_float) => lit_float.base10_parse()?,
         };
